@@ -320,4 +320,40 @@ theorem spread_exactness (s e : Int) (n i : Nat) (hn : 0 < n) :
       apply Int.mul_lt_mul_of_pos_left _ hi0
       omega
 
+
+/-! ### Through the file -/
+
+/-- media time is monotone in the tick count -/
+theorem mediaTime_mono (a b ts : Nat) (hab : a ≤ b) : a * 1000000000 / ts ≤ b * 1000000000 / ts :=
+  Nat.div_le_div_right (Nat.mul_le_mul_right _ hab)
+
+/-- every offset of a payload lies between the media times at which the payload begins and ends -/
+theorem offset_within_payload (s e : Int) (n i : Nat) (hi : i < n) (hse : s ≤ e) :
+    s ≤ s + (i : Int) * ((e - s) / (n : Int)) ∧ s + (i : Int) * ((e - s) / (n : Int)) ≤ e := by
+  obtain ⟨h1, h2⟩ := spread_bounds s e n i hi hse
+  refine ⟨h1, ?_⟩
+  by_cases hlt : s < e
+  · exact Int.le_of_lt (h2 hlt)
+  · have : e - s = 0 := by omega
+    rw [this]; simp; omega
+
+/-- **offsets never decrease through the file**: for two samples in presentation order (the earlier
+    one ends, in ticks, no later than the later one begins — `every_sample_once`), every offset
+    given to a reading of the earlier payload is at most every offset given to a reading of the
+    later payload, whatever the numbers of readings and for every timescale -/
+theorem offsets_never_decrease_through_the_file (ts : Nat) (r1 r2 : SampleRead)
+    (h12 : r1.endTicks ≤ r2.startTicks) (h1 : r1.startTicks ≤ r1.endTicks) (h2 : r2.startTicks ≤ r2.endTicks)
+    (n1 n2 i j : Nat) (hi : i < n1) (hj : j < n2) :
+    ∀ (s1 e1 s2 e2 : Int), s1 = ((r1.startTicks * 1000000000 / ts : Nat) : Int) →
+      e1 = ((r1.endTicks * 1000000000 / ts : Nat) : Int) → s2 = ((r2.startTicks * 1000000000 / ts : Nat) : Int) →
+      e2 = ((r2.endTicks * 1000000000 / ts : Nat) : Int) →
+    s1 + (i : Int) * ((e1 - s1) / (n1 : Int)) ≤ s2 + (j : Int) * ((e2 - s2) / (n2 : Int)) := by
+  intro s1 e1 s2 e2 hs1 he1 hs2 he2
+  have hs1e1 : s1 ≤ e1 := by rw [hs1, he1]; exact Int.ofNat_le.mpr (mediaTime_mono _ _ ts h1)
+  have hs2e2 : s2 ≤ e2 := by rw [hs2, he2]; exact Int.ofNat_le.mpr (mediaTime_mono _ _ ts h2)
+  have he1s2 : e1 ≤ s2 := by rw [he1, hs2]; exact Int.ofNat_le.mpr (mediaTime_mono _ _ ts h12)
+  have a := (offset_within_payload s1 e1 n1 i hi hs1e1).2
+  have b := (offset_within_payload s2 e2 n2 j hj hs2e2).1
+  exact Int.le_trans a (Int.le_trans he1s2 b)
+
 end TrackVerif.C08
